@@ -528,8 +528,7 @@ def run(ctx):
     sc = ctx.s("sched")
     feat = C.draw_features(ctx)
     feat["cond_numeric"] = cfg.chance(1, 4)
-    # the oracle is isolation (same call alone), not the reference, so constructs the library evaluates wrongly
-    # (disjunctive / universal preconditions) are legitimate workload: purity must hold for them too
+    # disjunctive / universal preconditions: drawn by draw_features for every check; asked for more often here
     nested = cfg.draw(5)
     if nested == 0:
         feat["or_pre"] = True
